@@ -14,7 +14,7 @@ import z3
 import vcommon as V
 from vcommon import log
 import native as N
-import mir, sym, opkernels as K, opcheck as Q, builtinkernels as B, strkernels as S, strindexkernels as X
+import mir, sym, opkernels as K, opcheck as Q, builtinkernels as B, strkernels as S, strindexkernels as X, strrepeatkernels as R
 
 
 def string_summaries(sk, tier, disp=None):
@@ -220,7 +220,31 @@ def check(scratch, nat, a, t0):
         info["paths"][profile] += sum(len(s_.paths) for s_ in xsum)
         for s_ in xsum:
             pf += X.check_summary(s_, profile, qs, timeout_ms, V.seed(), "C14")
-        log("  [%s] string indexing: %d summaries, %d validation vectors agree" % (profile, len(xsum), n3))
+        # the same with the index taken from a local variable of kind int / bigint / byte (full-width symbolic value)
+        vsum = [X.summarize_var(xk, ws, kind) for ws, kind in X.var_shapes(a.tier)]
+        n4, mism4 = X.var_validate(vsum, nat.eval, release)
+        info["validation_vectors"][profile + ":string-indexing-by-variable"] = n4
+        if mism4:
+            for m in mism4[:10]:
+                log("  TRANSLATOR MISMATCH", m)
+            raise V.Inconclusive("engine B disagrees with the real string indexing (variable index) on %d of %d vectors (%s), first: %r" % (len(mism4), n4, profile, mism4[0]))
+        info["paths"][profile] += sum(len(s_.paths) for s_ in vsum)
+        for s_ in vsum:
+            pf += X.check_var_summary(s_, profile, qs, timeout_ms, V.seed(), "C14")
+        log("  [%s] string indexing: %d + %d summaries, %d + %d validation vectors agree" % (profile, len(xsum), len(vsum), n3, n4))
+        # string repetition s * n / n * s with n an int or bigint holding any value
+        rk = R.RepeatKernels(bk.mf, oc, scratch.repo, seed=V.seed())
+        info["functions"][profile].update(rk.encoded_functions())
+        rsum = [rk.summarize(sh, n_) for sh, n_ in R.shapes(a.tier)]
+        n5, mism5 = R.validate(rsum, nat.eval, release)
+        info["validation_vectors"][profile + ":string-repetition"] = n5
+        if mism5:
+            for m in mism5[:10]:
+                log("  TRANSLATOR MISMATCH", m)
+            raise V.Inconclusive("engine B disagrees with the real string repetition on %d of %d vectors (%s), first: %r" % (len(mism5), n5, profile, mism5[0]))
+        info["paths"][profile] += sum(len(s_.paths) for s_ in rsum)
+        for s_ in rsum:
+            pf += R.check_summary(s_, profile, qs, timeout_ms, V.seed(), "C14")
         confirm(pf, nat, release)
         findings += pf
         log("  [%s] %d obligations so far, %d candidate findings" % (profile, qs.obligations, len(pf)))
@@ -332,7 +356,7 @@ def report(a, findings, qs, info, t0):
                          "std models: " + ", ".join(sorted(set(sum(info["models"].values(), [])))),
                          "f64::powi / f64::powf are uninterpreted functions", "oracle: /verif/mirsym/builtinkernels.py oracle(), /verif/mirsym/strkernels.py oracle(), /verif/mirsym/strindexkernels.py (k-th character)"],
         "functions_encoded": info["functions"], "paths": info["paths"],
-        "bounds": "numeric methods to_int,to_bigint,to_byte,to_float,abs,sqrt,pow,powf,fpart,ipart,round,floor,ceil: every numeric receiver kind, full-width symbolic payload; pow: exponents 0..%d exact + all negative exponents, larger exponents outside the claim. String methods len,substring,delete,insert,split,reverse: receiver length 0..%d, inserted text length 0..%d, every character symbolic in 0x20..0x7E (multi-byte text outside the claim), every index a full-width symbolic i32. String indexing s[k] (instruction vec_op with a literal index): strings of 0..%d characters, every character symbolic over its whole UTF-8 width class, all 4^n class combinations, every k in 0..n+1; variable indices, contains/index_of/replace/chars/repetition/concatenation outside" % (B.POW_EXPONENTS[-1], S.LMAX.get(a.tier, 3), S.IMAX.get(a.tier, 2), X.NMAX.get(a.tier, 3)),
+        "bounds": "numeric methods to_int,to_bigint,to_byte,to_float,abs,sqrt,pow,powf,fpart,ipart,round,floor,ceil: every numeric receiver kind, full-width symbolic payload; pow: exponents 0..%d exact + all negative exponents, larger exponents outside the claim. String methods len,substring,delete,insert,split,reverse: receiver length 0..%d, inserted text length 0..%d, every character symbolic in 0x20..0x7E (multi-byte text outside the claim), every index a full-width symbolic i32. String indexing s[k] (instruction vec_op with a literal index): strings of 0..%d characters, every character symbolic over its whole UTF-8 width class, all 4^n class combinations, every k in 0..n+1; and s[i] with i a local variable of kind int / bigint / byte holding ANY value of its kind (strings of 0..%d characters); String repetition s * n and n * s: strings of 0..%d ASCII characters, n an int or bigint holding ANY value (repetitions beyond 3 kept as an opaque term with its count). contains/index_of/replace/chars/concatenation outside" % (B.POW_EXPONENTS[-1], S.LMAX.get(a.tier, 3), S.IMAX.get(a.tier, 2), X.NMAX.get(a.tier, 3), X.VAR_NMAX.get(a.tier, 2), R.LMAX.get(a.tier, 2)),
         "solver_time_s": round(qs.solver_s, 2),
         "samples": qs.samples[:8] + [f.as_dict() for f in (new + listed)[:6]],
         "known_findings_reported": len(seen), "new_violations": len(new),
